@@ -240,13 +240,21 @@ def line_search(
     # So we need to use the old minpack2 Fortran implementation
     is_use_minpack2: bool = Version(spversion) < Version("1.12")
 
+    def trial_point(alpha: float) -> NDArrayFloat:
+        """Return x0 + alpha * d projected on the box.
+
+        alpha <= max_steplength keeps the point feasible in exact arithmetic only:
+        x0 + ((ub - x0) / d) * d can exceed ub by a few units in the last place.
+        """
+        return np.clip(x0 + alpha * d, lb, ub)
+
     def phi(alpha: float) -> float:
         """Return the objective function for a steplength of `alpha`"""
-        return sf.fun(x0 + alpha * d)
+        return sf.fun(trial_point(alpha))
 
     def dphi(alpha: float) -> NDArrayFloat:
         """Return the gradient of `phi` with respect to alpha."""
-        return sf.grad(x0 + alpha * d).dot(d)
+        return sf.grad(trial_point(alpha)).dot(d)
 
     task = b"START"
     f_m1 = f0
@@ -295,7 +303,7 @@ def line_search(
 
         if task[:2] == b"FG":
             steplength_0 = steplength
-            f_m1, dphi_m1 = sf.fun_and_grad(x0 + steplength * d)
+            f_m1, dphi_m1 = sf.fun_and_grad(trial_point(steplength))
             dphi_m1 = dphi_m1.dot(d)
             if f_m1 < best_f:
                 best_stp, best_f = steplength, f_m1
